@@ -52,8 +52,9 @@ class Watchdog(LiteXModule):
         self.ev.finalize()
 
         self.sync += [
-            If(self.feed, 
-                remaining.status.eq(cycles.storage)
+            If(self.feed,
+                remaining.status.eq(cycles.storage),
+                self.execute.eq(0),
             ).Elif(self.enable,
                 If(remaining.status != 0,
                     remaining.status.eq(remaining.status - 1)
